@@ -193,6 +193,11 @@ def run(ctx):
         ctx.notes.extend(it3.unknown_notes[:5])
     ctx.absorb(it)
     ctx.absorb(it2)
+    # ---- R07.5 no unsynchronised derived state on the objects this property queries (shared rule, see statecache.py)
+    from ..statecache import instance_memo_rule as _memo, positive_example as _memo_pos
+    _memo(ctx, "R07.5", [p.get_class("wavespectra.spectrum.FrequencySpectrum"), p.get_class("wavespectra.spectrum.FrequencyDirectionSpectrum")], "spectrum classes")
+    _memo_pos(ctx, "R07.5")
+    ctx.require_count("R07.5", 2)
     ctx.require_count("R07.1", 5)
     ctx.require_count("R07.2", 10)
     ctx.require_count("R07.3", 18)
